@@ -65,7 +65,7 @@ deriving DecidableEq, Repr
 def upd {κ : Type} [DecidableEq κ] {α : Type} (f : κ → α) (k : κ) (v : α) : κ → α :=
   fun x => if x = k then v else f x
 
-/-! ## ServiceRouter -/
+/-! ## ServiceRouter (after fixes D6 and D31) -/
 
 /-- `serviceRoute{target, service}`: two pointers into one description. -/
 structure SvcRoute where
@@ -78,54 +78,78 @@ structure SvcState where
   watching : Name → Bool                       -- watcherSet
   routes : SvcName → Option SvcRoute           -- sync.Map
   svcRoutes : Name → Option (List SvcName)     -- map[string][]protoreflect.FullName
+  waiting : SvcName → List SvcRoute            -- map[FullName][]serviceRoute (fix D31); `[]` = no key
 
-def SvcState.init : SvcState := ⟨fun _ => false, fun _ => none, fun _ => none⟩
-
-/-- First loop of `updateRoutes` (LoadOrStore / conflict / same owner ⇒ Store — the D6 fix),
-    threading the sync.Map and `newSvcRoutes`; `i` is the index of the head service in `desc.Services`. -/
-def addLoop (dn : Name) (dv : Ver) : List Service → Nat → (SvcName → Option SvcRoute) → List SvcName →
-    (SvcName → Option SvcRoute) × List SvcName
-  | [], _, r, acc => (r, acc)
-  | s :: ss, i, r, acc =>
-    match r s.name with
-    | none => addLoop dn dv ss (i + 1) (upd r s.name (some ⟨dn, dv, i⟩)) (acc ++ [s.name])
-    | some old =>
-      if old.target ≠ dn then addLoop dn dv ss (i + 1) r acc
-      else addLoop dn dv ss (i + 1) (upd r s.name (some ⟨dn, dv, i⟩)) (acc ++ [s.name])
-
-/-- The same loop before fix D6: nothing is stored when the target already owns the service. -/
-def addLoopPreFix (dn : Name) (dv : Ver) : List Service → Nat → (SvcName → Option SvcRoute) → List SvcName →
-    (SvcName → Option SvcRoute) × List SvcName
-  | [], _, r, acc => (r, acc)
-  | s :: ss, i, r, acc =>
-    match r s.name with
-    | none => addLoopPreFix dn dv ss (i + 1) (upd r s.name (some ⟨dn, dv, i⟩)) (acc ++ [s.name])
-    | some old =>
-      if old.target ≠ dn then addLoopPreFix dn dv ss (i + 1) r acc
-      else addLoopPreFix dn dv ss (i + 1) r (acc ++ [s.name])
-
-/-- Second loop: `for _, route := range sr.svcRoutes[name] { if !present[route] { routes.Delete(route) } }` -/
-def delLoop (present : List SvcName) : List SvcName → (SvcName → Option SvcRoute) → (SvcName → Option SvcRoute)
-  | [], r => r
-  | s :: ss, r => if s ∈ present then delLoop present ss r else delLoop present ss (upd r s none)
+def SvcState.init : SvcState := ⟨fun _ => false, fun _ => none, fun _ => none, fun _ => []⟩
 
 def sliceOf {α : Type} : Option (List α) → List α
   | some l => l
   | none => []     -- indexing a Go map with a missing key yields the nil slice
 
-def updateRoutes (st : SvcState) (d : Desc) : SvcState :=
-  let p := addLoop d.name d.ver d.services 0 st.routes []
-  { st with routes := delLoop p.2 (sliceOf (st.svcRoutes d.name)) p.1,
-            svcRoutes := upd st.svcRoutes d.name (some p.2) }
+/-- `recordClaim`: replace the first entry of the same target in place, else append -/
+def recordClaim : List SvcRoute → SvcRoute → List SvcRoute
+  | [], new => [new]
+  | e :: es, new => if e.target = new.target then new :: es else e :: recordClaim es new
 
-def updateRoutesPreFix (st : SvcState) (d : Desc) : SvcState :=
-  let p := addLoopPreFix d.name d.ver d.services 0 st.routes []
-  { st with routes := delLoop p.2 (sliceOf (st.svcRoutes d.name)) p.1,
-            svcRoutes := upd st.svcRoutes d.name (some p.2) }
+/-- `dropClaim`: remove the first entry of the target -/
+def dropClaim : List SvcRoute → Name → List SvcRoute
+  | [], _ => []
+  | e :: es, n => if e.target = n then es else e :: dropClaim es n
+
+/-- does the description list a service of that name -/
+def listedB (ss : List Service) (x : SvcName) : Bool := ss.any (fun s => decide (s.name = x))
+
+/-- state threaded through the first loop of `updateRoutes` -/
+structure AddSt where
+  r : SvcName → Option SvcRoute
+  w : SvcName → List SvcRoute
+  acc : List SvcName            -- newSvcRoutes (its members = presentSvcRoutes)
+
+/-- First loop of `updateRoutes`: LoadOrStore / conflict ⇒ keep the owner and record the claim (D31) /
+    same owner ⇒ Store (D6); `i` is the index of the head service in `desc.Services`. -/
+def addLoop (dn : Name) (dv : Ver) : List Service → Nat → AddSt → AddSt
+  | [], _, a => a
+  | s :: ss, i, a =>
+    match a.r s.name with
+    | none =>
+      addLoop dn dv ss (i + 1)
+        { a with r := upd a.r s.name (some ⟨dn, dv, i⟩), acc := if s.name ∈ a.acc then a.acc else a.acc ++ [s.name] }
+    | some old =>
+      if old.target ≠ dn then
+        addLoop dn dv ss (i + 1) { a with w := upd a.w s.name (recordClaim (a.w s.name) ⟨dn, dv, i⟩) }
+      else
+        addLoop dn dv ss (i + 1)
+          { a with r := upd a.r s.name (some ⟨dn, dv, i⟩), acc := if s.name ∈ a.acc then a.acc else a.acc ++ [s.name] }
+
+/-- state threaded through the release loops -/
+structure DelSt where
+  r : SvcName → Option SvcRoute
+  w : SvcName → List SvcRoute
+  sv : Name → Option (List SvcName)
+
+/-- `release(svc)`: hand the service to the first waiting claimant with ONE Store, or Delete it -/
+def release (q : DelSt) (x : SvcName) : DelSt :=
+  match q.w x with
+  | [] => { q with r := upd q.r x none }
+  | e :: rest =>
+    { r := upd q.r x (some e), w := upd q.w x rest,
+      sv := upd q.sv e.target (some (sliceOf (q.sv e.target) ++ [x])) }
+
+/-- `for _, route := range owned { if !present[route] { sr.release(route) } }` -/
+def delLoop (present : List SvcName) : List SvcName → DelSt → DelSt
+  | [], q => q
+  | s :: ss, q => if s ∈ present then delLoop present ss q else delLoop present ss (release q s)
+
+def updateRoutes (st : SvcState) (d : Desc) : SvcState :=
+  let a := addLoop d.name d.ver d.services 0 ⟨st.routes, st.waiting, []⟩
+  -- "forget claims for services which this target doesn't list anymore"
+  let w1 : SvcName → List SvcRoute := fun x => if listedB d.services x then a.w x else dropClaim (a.w x) d.name
+  let q := delLoop a.acc (sliceOf (st.svcRoutes d.name)) ⟨a.r, w1, st.svcRoutes⟩
+  { st with routes := q.r, waiting := q.w, svcRoutes := upd q.sv d.name (some a.acc) }
 
 def SvcState.removeTarget (st : SvcState) (n : Name) : SvcState :=
-  { st with routes := delLoop [] (sliceOf (st.svcRoutes n)) st.routes,
-            svcRoutes := upd st.svcRoutes n none }
+  let q := delLoop [] (sliceOf (st.svcRoutes n)) ⟨st.routes, st.waiting, st.svcRoutes⟩
+  { st with routes := q.r, svcRoutes := upd q.sv n none, waiting := fun x => dropClaim (q.w x) n }
 
 def SvcState.step (st : SvcState) : Op → SvcState × OpRes
   | .watch n =>
@@ -140,6 +164,60 @@ def SvcState.step (st : SvcState) : Op → SvcState × OpRes
     else ({ (st.removeTarget n) with watching := upd st.watching n false }, .ok)
 
 def SvcState.run (st : SvcState) (h : List Op) : SvcState := h.foldl (fun s op => (s.step op).1) st
+
+/-! ### the code before the fixes (kept to state what was wrong) -/
+
+/-- first loop before fix D31 (claims of later claimants are only logged), with the D6 Store -/
+def addLoopOrig (dn : Name) (dv : Ver) : List Service → Nat → (SvcName → Option SvcRoute) → List SvcName →
+    (SvcName → Option SvcRoute) × List SvcName
+  | [], _, r, acc => (r, acc)
+  | s :: ss, i, r, acc =>
+    match r s.name with
+    | none => addLoopOrig dn dv ss (i + 1) (upd r s.name (some ⟨dn, dv, i⟩)) (acc ++ [s.name])
+    | some old =>
+      if old.target ≠ dn then addLoopOrig dn dv ss (i + 1) r acc
+      else addLoopOrig dn dv ss (i + 1) (upd r s.name (some ⟨dn, dv, i⟩)) (acc ++ [s.name])
+
+/-- The same loop before fix D6 as well: nothing is stored when the target already owns the service. -/
+def addLoopPreFix (dn : Name) (dv : Ver) : List Service → Nat → (SvcName → Option SvcRoute) → List SvcName →
+    (SvcName → Option SvcRoute) × List SvcName
+  | [], _, r, acc => (r, acc)
+  | s :: ss, i, r, acc =>
+    match r s.name with
+    | none => addLoopPreFix dn dv ss (i + 1) (upd r s.name (some ⟨dn, dv, i⟩)) (acc ++ [s.name])
+    | some old =>
+      if old.target ≠ dn then addLoopPreFix dn dv ss (i + 1) r acc
+      else addLoopPreFix dn dv ss (i + 1) r (acc ++ [s.name])
+
+/-- second loop before fix D31: `routes.Delete(route)` for every owned service not listed again -/
+def delLoopOrig (present : List SvcName) : List SvcName → (SvcName → Option SvcRoute) → (SvcName → Option SvcRoute)
+  | [], r => r
+  | s :: ss, r => if s ∈ present then delLoopOrig present ss r else delLoopOrig present ss (upd r s none)
+
+/-- `updateRoutes` before fix D31 (after D6) -/
+def updateRoutesOrig (st : SvcState) (d : Desc) : SvcState :=
+  let p := addLoopOrig d.name d.ver d.services 0 st.routes []
+  { st with routes := delLoopOrig p.2 (sliceOf (st.svcRoutes d.name)) p.1,
+            svcRoutes := upd st.svcRoutes d.name (some p.2) }
+
+/-- `updateRoutes` before fixes D6 and D31 -/
+def updateRoutesPreFix (st : SvcState) (d : Desc) : SvcState :=
+  let p := addLoopPreFix d.name d.ver d.services 0 st.routes []
+  { st with routes := delLoopOrig p.2 (sliceOf (st.svcRoutes d.name)) p.1,
+            svcRoutes := upd st.svcRoutes d.name (some p.2) }
+
+/-- `removeTarget` before fix D31 -/
+def SvcState.removeTargetOrig (st : SvcState) (n : Name) : SvcState :=
+  { st with routes := delLoopOrig [] (sliceOf (st.svcRoutes n)) st.routes,
+            svcRoutes := upd st.svcRoutes n none }
+
+/-- the sequential machine of the code before fix D31 -/
+def SvcState.stepOrig (st : SvcState) : Op → SvcState
+  | .watch n => if st.watching n then st else { st with watching := upd st.watching n true }
+  | .update n d => if !st.watching n then st else if d.name ≠ n then st else updateRoutesOrig st d
+  | .close n => if !st.watching n then st else { (st.removeTargetOrig n) with watching := upd st.watching n false }
+
+def SvcState.runOrig (st : SvcState) (h : List Op) : SvcState := h.foldl SvcState.stepOrig st
 
 /-! ## PatternRouter -/
 
